@@ -1,7 +1,7 @@
 #!/bin/sh
 # usage: tools/seedtest.sh <patch.diff> <property-id> [tier]
 # applies the patch to /repo, runs the check, reverts. Prints the check's last lines.
-P="$1"; ID="$2"; T="${3:-quick}"
+P="$(readlink -f "$1")"; ID="$2"; T="${3:-quick}"
 cd /repo || exit 2
 if ! git apply --check "$P" 2>/dev/null; then echo "patch does not apply: $P"; exit 2; fi
 git apply "$P"
